@@ -22,7 +22,7 @@ import operator
 
 import eqlmc  # noqa: F401
 from entity_query_language import (entity, set_of, an, the, infer, let, and_, or_, not_, contains, in_, flatten,
-                                   concatenate, for_all, symbolic_mode, From)
+                                   concatenate, for_all, symbolic_mode, rule_mode, From)
 
 from . import worlds as W
 
@@ -42,6 +42,7 @@ class Builder:
         self.inst = inst
         self.env = {}
         self.froms = {}
+        self.memo = {}
         self.sel = {}       # query AST -> built selected expression(s), needed to index result rows
 
     def declare(self, vars_):
@@ -77,13 +78,35 @@ class Builder:
             return getattr(self.term(t[1]), t[2])(*[self.inst.v(a) for a in t[3]])
         if k == "l":
             return self.inst.v(t[1])
-        if k == "fl":
-            return flatten(self.term(t[1]))
-        if k == "cc":
-            return concatenate(self.term(t[1]))
+        if k in ("fl", "cc"):
+            # e = flatten(...) / concatenate(...) is written once and reused: one node per distinct AST term
+            if t not in self.memo:
+                self.memo[t] = (flatten if k == "fl" else concatenate)(self.term(t[1]))
+            return self.memo[t]
         if k == "sub":
             return self.query(t[1])
+        if k == "new":          # ("new", clsname, positional terms, ((field, term), ...)) constructor call
+            pos = [self.arg(a) for a in t[2]]
+            kw = {f: self.arg(a) for f, a in t[3]}
+            return W.CLASSES[t[1]](*pos, **kw)
+        if k == "pform":        # ("pform", clsname, domkey|None, positional, kw) predicate-form term T(From(d), ...)
+            pos = [self.arg(a) for a in t[3]]
+            kw = {f: self.arg(a) for f, a in t[4]}
+            if t[2] is None:
+                return W.CLASSES[t[1]](*pos, **kw)
+            if isinstance(t[2], tuple):          # ("shared", domkey): one From object reused
+                f = self.froms.setdefault(t[2][1], From(self.world[t[2][1]]))
+                return W.CLASSES[t[1]](f, *pos, **kw)
+            return W.CLASSES[t[1]](From(self.world[t[2]]), *pos, **kw)
+        if k == "bound":        # ("bound", name, term): build term once, remember it as variable `name`
+            if t[1] not in self.env:
+                self.env[t[1]] = self.term(t[2])
+            return self.env[t[1]]
         raise ValueError(t)
+
+    def arg(self, a):
+        """constructor / predicate argument: a literal is passed as the plain Python constant"""
+        return self.term(a)
 
     def cond(self, c):
         k = c[0]
@@ -122,21 +145,23 @@ class Builder:
     def query(self, q):
         _, quant, kind, sel, conds, vars_ = q
         self.declare(vars_)
-        cs = [self.cond(c) for c in conds]
+        # the selection is written first (entity(x := T(...), conditions...)), so it is built first
         if kind == "entity":
             built = self.term(sel)
+            cs = [self.cond(c) for c in conds]
             d = entity(built, *cs)
         else:
             built = [self.term(s) for s in sel]
+            cs = [self.cond(c) for c in conds]
             d = set_of(built, *cs)
         self.sel[q] = built
         return {"an": an, "the": the, "infer": infer}[quant](d)
 
 
-def build(q, world, inst):
-    """Returns (query object, builder). Runs inside symbolic_mode(), as a user would write it."""
+def build(q, world, inst, mode="query"):
+    """Returns (query object, builder). Runs inside symbolic_mode() / rule_mode(), as a user would write it."""
     b = Builder(world, inst)
-    with symbolic_mode():
+    with (rule_mode() if mode == "rule" else symbolic_mode()):
         obj = b.query(q)
     return obj, b
 
@@ -172,6 +197,12 @@ class Ref:
             return getattr(self.value(t[1], env), t[2])(*[self.inst.v(a) for a in t[3]])
         if k == "l":
             return self.inst.v(t[1])
+        if k == "fl":
+            return env[t]           # bound by solutions(): one binding per inner element
+        if k == "new":
+            return W.CLASSES[t[1]](*[self.value(a, env) for a in t[2]], **{f: self.value(a, env) for f, a in t[3]})
+        if k == "bound":
+            return self.value(t[2], env)
         raise ValueError(t)
 
     def holds(self, c, env):
@@ -211,12 +242,41 @@ class Ref:
         _, quant, kind, sel, conds, vars_ = q
         doms = [self.domain(v) for v in vars_]
         names = [v[0] for v in vars_]
+        fls = flatten_terms((sel, conds))
         out = []
         for combo in itertools.product(*doms):
-            env = dict(zip(names, combo))
-            if all(self.holds(c, env) for c in conds):
-                out.append(env)
+            env0 = dict(zip(names, combo))
+            for env in self.unnest(env0, fls):
+                if all(self.holds(c, env) for c in conds):
+                    out.append(env)
         return out
+
+    def unnest(self, env, fls):
+        """UNNEST: one environment per inner element of every flatten term (non-iterables count as one element)"""
+        if not fls:
+            yield env
+            return
+        t, rest = fls[0], fls[1:]
+        inner = self.value(t[1], env)
+        elems = list(inner) if (hasattr(inner, "__iter__") and not isinstance(inner, (str, bytes))) else [inner]
+        for e in elems:
+            env2 = dict(env)
+            env2[t] = e
+            yield from self.unnest(env2, rest)
+
+
+def flatten_terms(x):
+    """distinct flatten terms in order of first appearance (inner ones first)"""
+    out = []
+
+    def walk(t):
+        if isinstance(t, tuple):
+            for e in t:
+                walk(e)
+            if len(t) == 2 and t[0] == "fl" and t not in out:
+                out.append(t)
+    walk(x)
+    return out
 
 
 REF_PRED = {
@@ -269,6 +329,15 @@ def up_term(t, inst):
         return f"concatenate({up_term(t[1], inst)})"
     if k == "sub":
         return up_query(t[1], inst, nested=True)
+    if k == "new":
+        args = [up_term(a, inst) for a in t[2]] + [f"{f}={up_term(a, inst)}" for f, a in t[3]]
+        return f"{t[1]}({', '.join(args)})"
+    if k == "pform":
+        dom = [] if t[2] is None else [f"from_{t[2][1]}" if isinstance(t[2], tuple) else f"From({t[2]})"]
+        args = dom + [up_term(a, inst) for a in t[3]] + [f"{f}={up_term(a, inst)}" for f, a in t[4]]
+        return f"{t[1]}({', '.join(args)})"
+    if k == "bound":
+        return f"({t[1]} := {up_term(t[2], inst)})"
     raise ValueError(t)
 
 
@@ -315,7 +384,7 @@ def up_decl(v):
     }[style]
 
 
-def up_query(q, inst, nested=False):
+def up_query(q, inst, nested=False, mode="query"):
     _, quant, kind, sel, conds, vars_ = q
     cs = "".join(", " + up_cond(c, inst) for c in conds)
     if kind == "entity":
@@ -326,7 +395,8 @@ def up_query(q, inst, nested=False):
     if nested:
         return expr
     decls = "; ".join(up_decl(v) for v in all_vars(q))
-    return f"with symbolic_mode(): {decls}; q = {expr}"
+    ctx = "rule_mode()" if mode == "rule" else "symbolic_mode()"
+    return f"with {ctx}: {decls}{'; ' if decls else ''}q = {expr}"
 
 
 def all_vars(q):
